@@ -319,6 +319,16 @@ func conformOne(run *report.Run, dir, kdir, p string) (int64, int64) {
 							break states
 						}
 						n++
+						// the property's oracle on the IN-KERNEL result (ground truth; the native build is only a model of
+						// it and may differ where the C source has undefined behaviour, e.g. an over-wide shift)
+						if p == "dhcp_fastpath" && kv == 3 /* XDP_TX */ {
+							if t := dhcpRequestType(f[:l]); t != 1 && t != 3 {
+								run.Violation(report.Violation{Part: p + "/kernel-conformance", Kind: "tx-not-a-request", Site: pr.Name, Config: fmt.Sprintf("state=%d", st),
+									Detail: fmt.Sprintf("in-kernel run answered (XDP_TX) a frame whose DHCP message type is %d: only DISCOVER/REQUEST are frames the program is specified to act on; frame=%x", t, f[:l])})
+								ok++
+								continue
+							}
+						}
 						if int32(kv) == nr.Verdict && bytes.Equal(kout, nr.Frame) {
 							ok++
 						} else if n-ok <= 3 {
@@ -359,5 +369,44 @@ func replay(dir string) int {
 		return 1
 	}
 	fmt.Println("replay: no violation")
+	return 0
+}
+
+// dhcpRequestType: message type of a DHCP request frame by a plain parse (VLAN tags skipped, IHL honoured, options
+// walked); 0 when the frame is not a BOOTREQUEST with the magic cookie or carries no option 53.
+func dhcpRequestType(f []byte) int {
+	o := 12
+	for t := 0; t < 2 && o+4 <= len(f) && ((f[o] == 0x81 && f[o+1] == 0x00) || (f[o] == 0x88 && f[o+1] == 0xa8)); t++ {
+		o += 4
+	}
+	if o+2 > len(f) || f[o] != 0x08 || f[o+1] != 0x00 {
+		return 0
+	}
+	o += 2
+	if o+20 > len(f) || f[o]>>4 != 4 || f[o+9] != 17 {
+		return 0
+	}
+	o += int(f[o]&0xf) * 4
+	if o+8 > len(f) {
+		return 0
+	}
+	o += 8
+	if o+240 > len(f) || f[o] != 1 || f[o+236] != 0x63 || f[o+237] != 0x82 || f[o+238] != 0x53 || f[o+239] != 0x63 {
+		return 0
+	}
+	o += 240
+	for o < len(f) {
+		if f[o] == 0 {
+			o++
+			continue
+		}
+		if f[o] == 255 || o+1 >= len(f) {
+			return 0
+		}
+		if f[o] == 53 && f[o+1] >= 1 && o+2 < len(f) {
+			return int(f[o+2])
+		}
+		o += 2 + int(f[o+1])
+	}
 	return 0
 }
